@@ -126,7 +126,7 @@ def listed (m : MResponse) (b : Int) : Bool := m.brokers.any (·.nodeID == b)
 
 /-- host:port the description gives for broker `b` -/
 def listedAddr (m : MResponse) (b : Int) : Option String :=
-  (m.brokers.find? (·.nodeID == b)).map fun x => s!"{x.host}:{x.port}"
+  (m.brokers.find? (·.nodeID == b)).map fun x => KV.Spec.Routing.hostPort x.host x.port
 
 def specLayout (m : MResponse) : String :=
   let bs := sortBy (fun a b => a.nodeID < b.nodeID) m.brokers
@@ -186,20 +186,24 @@ def bodyModel (a : ApiMethods) (groups : List String) (r : ReqInfo) (v : Int) : 
     s!"#{dash w.1}/{dash (".".intercalate w.2)}"
   else ""
 
-def showAddr (a : Addr) : String := s!"{a.1}:{a.2}"
+def showAddr (a : Addr) : String := dialAddress a
 
 def sendOne (a : ApiMethods) (boot : Int) (c : Cluster) (down : List Int) (vt : VTable) (groups : List String) (r : ReqInfo) : Sent :=
   -- the pool's groups: by `conns_invariant`, one per broker of the layout at the layout's address
   let conns : List (Int × Addr) := c.brokers.map fun (k, b) => (k, b.addr)
   let atB (b : Int) (addr : String) : Sent :=
-    if down.contains b then .err "dial" else
+    -- an address a dialer cannot take apart (an unbracketed IPv6 literal) fails like an unreachable broker
+    if down.contains b || (addr.splitOn "]:").length != (if addr.startsWith "[" then 2 else 1) ||
+       (!addr.startsWith "[" && (addr.splitOn ":").length != 2) then .err "dial" else
     let table := ((vt.lookup b).getD []).map fun e => (a.apiKey, e.1, e.2)
     match requestVersion clientOf (negotiate clientOf table) a.apiKey with
     | some v => .ok b addr v (bodyModel a groups r v)
     | none => .err "unsupported"
   match route sendRequestCases a c conns r with
   | .broker id addr => atB id (showAddr addr)
-  | .control => atB boot (showAddr (lookupD c.brokers boot Broker.zero).addr)
+  | .control => -- the control connection dials the address the caller gave (the driver passes the listed one, well-formed)
+    let a := (lookupD c.brokers boot Broker.zero).addr
+    atB boot (KV.Spec.Routing.hostPort a.1 a.2)
   | .err e => .err (errName e)
 
 def showSent (xs : List Sent) (overallErr : Option String) : String :=
